@@ -8,7 +8,7 @@
 (* events, each carrying the abstract request, the check kind and the     *)
 (* observed response.  Verdicts are non-blocking (FAIL / DEV lines).      *)
 (***************************************************************************)
-EXTENDS Rank, Json, IOUtils
+EXTENDS Vector, Json, IOUtils
 
 Rec == ndJsonDeserialize(IOEnv.TRACE)
 
@@ -59,6 +59,9 @@ Judge(e) ==
     [] e.check = "paging" -> CheckPaging(D, docs, e, l, info.scn)
     [] e.check = "stale" -> CheckStale(e, l, info.scn)
     [] e.check = "same" -> CheckSame(e, l, info.scn)
+    [] e.check = "vec" -> CheckVec(D, docs, e, l, info.scn)
+    [] e.check = "hybrid" -> CheckHybrid(D, docs, e, l, info.scn)
+    [] e.check = "vecdim" -> CheckVecDim(e, l, info.scn)
     [] OTHER -> Say("TOOL", e.prop, e, "unknown check kind", "")
 
 TNext ==
